@@ -630,3 +630,66 @@ def abandon_then_close_family(thin: int = 1) -> List[dict]:
                             steps.extend(copy.deepcopy(DRAIN))
                             cases.append({"pools": [{"cls": "TaskPool", "size": size}], "steps": steps})
     return cases[::thin] if thin > 1 else cases
+
+
+def two_flushes_family(thin: int = 1) -> List[dict]:
+    """Two flush() calls overlap: the first waits for a task in its slow end callback; another task ends (and sits in its callback)
+    before the second flush starts; the callbacks are let go in either order; then every id is probed with cancel():
+
+        spawn 3 (slow end callback) ; tick 3 ; gate 0 ; tick a ; flush A ; tick b ; gate 0 (next worker returns) ; tick c ; flush B ;
+        gate k ; tick 1 ; cancel(ids) ; gate k2 ; settle ; cancel(ids) ; drain"""
+    cases: List[dict] = []
+    slow = {"async": True, "wait": True}
+    probes = [[["any", 0]], [["any", 1]], [["any", 2], ["any", 1]], [["incb", 0]]]
+    for size in (3, None):
+        for re_a, re_b in ((True, True), (False, True), (True, False)):
+            for a, b, c in itertools.product(range(2), range(3), range(3)):
+                for pr in probes:
+                    for k, k2 in ((0, 0), (1, 0), (0, 1), (2, 0)):
+                        sp = {"op": "spawn", "pool": 0, "kind": "apply", "num": 3, "place": "inline", "ecb": dict(slow), "worker": {"script": [["wait"]], "fname": "w"}}
+                        fa = {"op": "flush", "pool": 0, "place": "eager", **({"re": True} if re_a else {})}
+                        fb = {"op": "flush", "pool": 0, "place": "task", **({"re": True} if re_b else {})}
+                        steps = [sp, {"op": "tick", "k": 3}, {"op": "gate", "k": 0, "place": "inline"}]
+                        _ticks(steps, a + 1)
+                        steps.append(fa)
+                        _ticks(steps, b)
+                        steps.append({"op": "gate", "k": 0, "place": "inline"})
+                        _ticks(steps, c)
+                        steps.append(fb)
+                        steps.append({"op": "gate", "k": k, "place": "inline"})
+                        steps.append({"op": "tick", "k": 1})
+                        steps.append({"op": "cancel", "pool": 0, "refs": pr, "place": "inline"})
+                        steps.append({"op": "gate", "k": k2, "place": "inline"})
+                        steps.append({"op": "settle"})
+                        steps.append({"op": "cancel", "pool": 0, "refs": pr, "place": "inline"})
+                        steps.extend(copy.deepcopy(DRAIN))
+                        cases.append({"pools": [{"cls": "TaskPool", "size": size}], "steps": steps})
+    return cases[::thin] if thin > 1 else cases
+
+
+def sibling_maps_family(thin: int = 1) -> List[dict]:
+    """Two or three groups of the map family (and an apply) side by side, all with elements left; one is cancelled (or everything after
+    one has finished); the others must go on to the end:
+
+        spawn M1 ; spawn M2 ; [spawn M3 / apply] ; tick t ; cancel_group(one of them) ; gate k ; settle ; drain"""
+    cases: List[dict] = []
+    kinds = [("map", {"n": 4, "nc": 1}), ("starmap", {"n": 4, "nc": 2}), ("doublestarmap", {"n": 3, "nc": 1}), ("apply", {"num": 3})]
+    for size in (2, 3, None):
+        for combo in itertools.combinations(range(4), 2):
+            for third in (None, 0, 3):
+                for which in range(3 if third is not None else 2):
+                    for t in range(4):
+                        for k in range(2):
+                            steps: List[dict] = []
+                            members = list(combo) + ([third] if third is not None else [])
+                            for j, m in enumerate(members):
+                                kind, extra = kinds[m]
+                                steps.append({"op": "spawn", "pool": 0, "kind": kind, "place": "inline", "worker": {"script": [["wait"]], "fname": "wx"[j % 2]}, **extra})
+                            _ticks(steps, t)
+                            steps.append({"op": "cancel_group", "pool": 0, "ref": ["live", which], "place": "inline"})
+                            steps.append({"op": "gate", "k": k, "place": "inline"})
+                            steps.append({"op": "settle"})
+                            steps.extend(copy.deepcopy(DRAIN))
+                            steps.extend(copy.deepcopy(DRAIN))
+                            cases.append({"pools": [{"cls": "TaskPool", "size": size}], "steps": steps})
+    return cases[::thin] if thin > 1 else cases
